@@ -1164,6 +1164,10 @@ dt_strfd(char *restrict buf, size_t bsz, const char *fmt, struct dt_d_s that)
 			bp += __strfd_rom(bp, eo - bp, spec, &d, that);
 		}
 	}
+	if (UNLIKELY(bp > buf + bsz)) {
+		/* a field printer reports the width it wanted, not what fit */
+		bp = buf + bsz;
+	}
 	if (bp < buf + bsz) {
 	out:
 		*bp = '\0';
@@ -1368,6 +1372,10 @@ dt_strfddur(char *restrict buf, size_t bsz, const char *fmt, struct dt_ddur_s th
 				}
 			}
 		}
+	}
+	if (UNLIKELY(bp > buf + bsz)) {
+		/* a field printer reports the width it wanted, not what fit */
+		bp = buf + bsz;
 	}
 	if (bp < buf + bsz) {
 	out:
